@@ -36,7 +36,10 @@ THEOREMS = [_T + n for n in (
     'C08_agg_witness_shallow_plan', 'C08_agg_witness_shallow', 'C08_agg_api', 'C08_agg_witness_api',
     # round 5 (ii): set operations across integrations
     'C08_set', 'C08_set_plan_shape', 'C08_set_unique_congr', 'C08_set_distinct_operand_sound_if_no_window',
-    'C08_set_witness_distinct_before_offset', 'C08_set_witness_except_keeps_rows')]
+    'C08_set_witness_distinct_before_offset', 'C08_set_witness_except_keeps_rows',
+    # round 6: column names that need quoting
+    'C08_names_bare_resolves', 'C08_names_splitDots_iff', 'C08_names_dotted_eq_bare_iff', 'C08_names_plan_keys',
+    'C08_names_partial_model', 'C08_names_witness_dotted', 'C08_names_witness_keys')]
 # NOT in the claim (pure congruence lemmas over abstract operands, see Props/C08.lean): C08_lemma_union_all_congr,
 # C08_lemma_union_distinct_congr, C08_lemma_cte_store_congr
 ASSUME = [
@@ -75,6 +78,14 @@ ASSUME = [
     'untied-model check of this run: check_use_limit beyond two tables (useLimitLoop, isLeftSpelling, non-plain items, grouping '
     'flags) is compared with the code by the exhaustive black-box `uselimit` stream (2-4 table sequences, sub-select operands); '
     'the LIMIT branches of execPlan / evalQuery are compared model-vs-real by `plan2-limit`',
+    'names (Model/SemNames.lean): names are character lists, identifiers lists of parts; Sem.bareColumn transcribes '
+    '`Identifier(parts=[col.parts[-1]])` of get_filters_from_join_conditions / process_table, Scope.resolve is name resolution in '
+    'the scope of ONE table (`col` or `alias.col`); QN ties names to the index fragment Q2; tie = stream name-rebuild (parts of the '
+    'rebuilt DISTINCT key / IN column / pushed ORDER BY in the REAL plan vs bareColumn for generated names with dots, spaces, '
+    'keywords, upper case, punctuation; and the REAL plan executed on tables that really carry these names); names containing a '
+    'back-quote, `|` or a line break are not generated; all other positions where names matter (projections, pushed WHERE, table '
+    'and alias names, CTE names, nested selects, set operations) are covered by the probe: one generated query in six is rewritten '
+    'under one of 7 namings (c08gen.NAMINGS) and executed in a world whose tables really have these names',
     'the impl-level probe (typed query generator x small table contents) is search, not proof; everything beyond the Lean '
     'fragment (pushdown into later tables of 3-4 table chains, sub-selects / CTEs as operands, CTE names colliding with real '
     'table names in every table position, IN / NOT IN / scalar sub-queries, UNION / INTERSECT / EXCEPT, nested selects, GROUP '
@@ -99,6 +110,19 @@ def plan_for(q):
     from mindsdb_sql.planner import plan_query
     import copy
     return plan_query(parse_sql(q.sql, 'mindsdb'), **copy.deepcopy(g.CATALOGS[q.catalog]))
+
+
+_WORLDS = {}
+
+
+def world_for(q, world=None):
+    """the executor world whose tables carry the real names of the query's naming (naming 0: the given plain world)"""
+    k = getattr(q, 'naming', 0)
+    if k == 0 and world is not None:
+        return world
+    if k not in _WORLDS:
+        _WORLDS[k] = px.World(g.SCHEMA, g.NAMINGS[k])
+    return _WORLDS[k]
 
 
 def steps_text(steps):
@@ -982,6 +1006,136 @@ def corr_setop(chk, world, n):
         chk.samples.append(dict(corr='setop-plan', sql=Q.sql, driver_in=line, driver_out=o[:300]))
 
 
+# ----------------------------------------------------------------------------- round 6: names that need quoting (Model/SemNames.lean)
+NAME_ATOMS = ['id', 'x', 'y', 'a', 'b', 'p', 'q', 'ta', 'tc', 'order', 'select', 'group', 'from', 'Key', 'My', 'COL', '1st', '2', 'user',
+              'orders', 'total', 'é', 'k0', 'n']
+NAME_SEPS = ['.', '.', '.', ' ', ' ', '-', '_', '..', ' . ', '$', '#', ':', '/', '(', ')', ',', "'", '"']
+
+
+def gen_name(rng):
+    r = rng.random()
+    if r < 0.15:
+        return rng.choice(['order', 'select', 'group', 'from', 'limit', 'Upper', 'UPPER', 'index', 'join', 'on', 'null', 'count'])
+    n = rng.choice([2, 2, 2, 3])
+    out = rng.choice(NAME_ATOMS)
+    for _ in range(n - 1):
+        out += rng.choice(NAME_SEPS) + rng.choice(NAME_ATOMS)
+    return out
+
+
+def corr_names(chk, n):
+    """stream `name-rebuild`: wherever the planner rebuilds a column identifier (DISTINCT key of the semi-join, the IN filter,
+    a pushed ORDER BY) its parts must be Sem.bareColumn of the original, for names with dots, spaces, keywords, upper case …;
+    and the REAL plan, run on tables that really have such names, must return what the query returns"""
+    from mindsdb_sql.planner import steps as S
+    from mindsdb_sql.parser import ast
+    rng = common.rng_for(chk.seed, 'C08/names')
+    lines, metas, dist = [], [], {}
+    for i in range(n):
+        while True:
+            nm = {c: gen_name(rng) for c in g.COLS}
+            if len({v.lower() for v in nm.values()}) == 3:
+                break
+        r = rng.random()
+        if r < 0.3:
+            nm['p'] = rng.choice(['a b', 'p.q', 'Select', 'P', nm['id'].split('.')[0] or 'p'])
+        if nm.get('p', 'p').lower() in ('q', 'ta', 'tc', 'int1', 'int2'):
+            nm.pop('p')            # the other alias / a table or integration name: not a name of its own
+        if r > 0.8:
+            nm['ta'] = rng.choice(['my tab', 'ta.x', 'Order', nm['x']])
+            if nm['ta'].lower() in ('tc', 'q', nm.get('p', 'p').lower()):
+                nm.pop('ta')
+        # a dotted name whose prefix is the alias and whose suffix is a sibling column: the silent variant
+        if rng.random() < 0.25:
+            al = nm.get('p', 'p')
+            sib = rng.choice(['x', 'y'])
+            nm['id'] = '%s.%s' % (al, nm[sib])
+        c0, c1 = rng.choice(g.COLS), rng.choice(g.COLS)
+        kind = rng.choice(['LEFT JOIN', 'LEFT JOIN', 'JOIN', 'RIGHT JOIN', 'LEFT OUTER JOIN'])
+        where = ' WHERE p.%s %s %d' % (rng.choice(g.COLS), rng.choice(g.CMP), rng.randrange(3)) if rng.random() < 0.3 else ''
+        sel = rng.sample(['p.id', 'p.x', 'p.y', 'q.id', 'q.x', 'q.y'], rng.choice([1, 2, 3]))
+        body = 'SELECT %s FROM int1.ta AS p %s int2.tc AS q ON p.%s = q.%s%s' % (', '.join(sel), kind, c0, c1, where)
+        order_pos, order_sql, lim = [], '', None
+        oc = None
+        if kind == 'LEFT JOIN' and rng.random() < 0.6:
+            oc = rng.choice(g.COLS)
+            if 'p.' + oc not in sel:
+                sel.append('p.' + oc)
+                body = 'SELECT %s FROM int1.ta AS p %s int2.tc AS q ON p.%s = q.%s%s' % (', '.join(sel), kind, c0, c1, where)
+            desc = rng.random() < 0.4
+            order_pos, order_sql, lim = [sel.index('p.' + oc)], ' ORDER BY p.%s%s' % (oc, ' DESC' if desc else ''), rng.choice([1, 2, 3])
+        lq = g.Q('names', 'names', body, order_pos, order_sql, lim, None, [('int1', 'ta'), ('int2', 'tc')])
+        q = g.Q('names', 'names', g.rename(body, nm), order_pos, g.rename(order_sql, nm), lim, None, lq.tables)
+        contents = g.gen_contents_match(rng, q.tables, 3)
+        al = nm.get('p', 'p')
+        lines.append('names|%s|%s|%s' % (al, nm[c0], '|'.join(nm[c] for c in g.COLS)))
+        lines.append('names|q|%s|%s' % (nm[c1], '|'.join(nm[c] for c in g.COLS)))
+        if oc is not None:
+            lines.append('names|%s|%s|%s' % (al, nm[oc], '|'.join(nm[c] for c in g.COLS)))
+        metas.append((q, nm, contents, c0, c1, oc, kind))
+        for v in (nm[c0], nm[c1]):
+            k = 'key/' + ('dot' if '.' in v else 'space' if ' ' in v else 'other')
+            dist[k] = dist.get(k, 0) + 1
+    try:
+        outs = common.lean_run('C08b', lines)
+    except Exception as e:
+        chk.oblige('corr:name-rebuild', 'correspondence', False, 'driver failed: %s' % e)
+        return
+    pos = 0
+    div = ex_div = ex_cases = 0
+    first = ex_first = None
+    for q, nm, contents, c0, c1, oc, kind in metas:
+        k = 3 if oc is not None else 2
+        mo = outs[pos: pos + k]
+        pos += k
+        chk.count(('names', q.sql))
+        model = []
+        for o in mo:
+            m = re.match(r'bare=(.*) idx=(\S+) dotted=(.*) didx=(\S+)$', o)
+            model.append(m.group(1) if m else 'driver:' + o)
+        why = None
+        steps = None
+        try:
+            steps = plan_for(q).steps
+            fetches = [s_ for s_ in steps if isinstance(s_, S.FetchDataframeStep)]
+            subs = [s_ for s_ in steps if isinstance(s_, S.SubSelectStep) and s_.query.distinct]
+            real = []
+            if kind == 'RIGHT JOIN':
+                # no semi-join filter for the right table of a RIGHT join: nothing is rebuilt
+                real = model[:2] if not subs else ['unexpected DISTINCT sub-select']
+            else:
+                real.append('|'.join(str(x) for x in subs[0].query.targets[0].parts) if len(subs) == 1 else 'subselects=%d' % len(subs))
+                ins = [c for c in cz.conjuncts(fetches[1].query.where) if cz.is_semi(c, {s_.step_num: s_ for s_ in steps})]
+                real.append('|'.join(str(x) for x in ins[0].args[0].parts) if len(ins) == 1 else 'in-filters=%d' % len(ins))
+            if oc is not None:
+                ob = fetches[0].query.order_by
+                real.append('|'.join(str(x) for x in ob[0].field.parts) if ob else 'no ORDER BY in the first fetch')
+        except Exception as e:
+            real = ['exc:%s:%s' % (type(e).__name__, str(e)[:80])]
+            steps = None
+        if real != model:
+            div += 1
+            first = first or dict(sql=q.sql, names=nm, why='rebuilt identifiers (DISTINCT key, IN column, pushed ORDER BY): model %r real %r' % (model, real))
+        if steps is not None:
+            ex_cases += 1
+            w = px.World(g.SCHEMA, nm)
+            w.load(contents)
+            try:
+                bad = g.compare(q, w.reference(q.nolimit_sql), px.exec_plan(w, steps).rows)
+            except px.ExecError as e:
+                bad = 'the plan cannot be carried out: %s' % str(e)[:160]
+            except Exception as e:
+                bad = 'reference failed: %s' % str(e)[:160]
+            if bad:
+                ex_div += 1
+                ex_first = ex_first or dict(sql=q.sql, names=nm, contents=str(sorted(contents.items())), why=bad)
+    chk.corr_result('name-rebuild(parts of the rebuilt DISTINCT key / IN column / pushed ORDER BY vs Sem.bareColumn, names that need quoting)',
+                    len(metas), div, first, dist)
+    chk.corr_result('name-rebuild-exec(real plan on tables that really carry such names == query on the engine)', ex_cases, ex_div, ex_first)
+    for (q, nm, _, _, _, _, _), o in list(zip(metas, outs))[:2]:
+        chk.samples.append(dict(corr='name-rebuild', sql=q.sql, names=nm))
+
+
 # ----------------------------------------------------------------------------- seeds (exhaustive tiny databases)
 SEEDS = [
     ('names', 'SELECT * FROM int1.ta JOIN int2.tc ON ta.id = tc.id', None),
@@ -1016,6 +1170,12 @@ CASES = [
      {('int1', 'ta'): [(1, 0, 0)], ('int2', 'tc'): [(1, 1, 2)], ('int3', 'te'): [(1, 1, 0)]}),
     ('project', 'WITH tc AS (SELECT id, x, y FROM int1.ta) SELECT x, y FROM tc UNION ALL SELECT x, y FROM int2.tc', [], '', None,
      {('int1', 'ta'): [(1, 0, 0)], ('int2', 'tc'): [(1, 1, 2)]}),
+    # chains whose joins point at same-named columns of DIFFERENT earlier tables (a.id, then b.id): every semi-join filter
+    # takes its values from the fetch of the table its ON column belongs to
+    ('names', 'SELECT a.id, b.id, c.y FROM int1.ta AS a JOIN int2.tc AS b ON b.x = a.id JOIN int3.te AS c ON c.y = b.id', [], '', None,
+     {('int1', 'ta'): [(1, 0, 0)], ('int2', 'tc'): [(2, 1, 0)], ('int3', 'te'): [(5, 0, 2), (6, 0, 1)]}),
+    ('names', 'SELECT a.x, c.id FROM int2.td AS a LEFT JOIN int1.tb AS b ON b.y = a.x LEFT JOIN int3.tf AS c ON c.id = b.x', [], '', None,
+     {('int2', 'td'): [(1, 0, 0)], ('int1', 'tb'): [(1, 2, 0)], ('int3', 'tf'): [(2, 1, 1), (0, 1, 1)]}),
     # multi-key ORDER BY + LIMIT over a LEFT JOIN, ties in the leading key across the limit boundary
     ('names', 'SELECT p.x, q.y FROM int1.ta AS p LEFT JOIN int2.tc AS q ON p.id = q.id', [0, 1], ' ORDER BY p.x, q.y', 1,
      {('int1', 'ta'): [(1, 0, 0), (2, 0, 0)], ('int2', 'tc'): [(1, 0, 2), (2, 0, 1)]}),
@@ -1046,11 +1206,29 @@ CASES5 = [
 ]
 
 
+# round 6: names that need quoting, in the positions where the planner rebuilds identifiers (logical text, naming index of
+# c08gen.NAMINGS): ON key -> DISTINCT / IN filter, pushed ORDER BY + LIMIT, pushed WHERE, renamed tables, renamed aliases
+CASES6 = [
+    (1, 'names', 'SELECT p.x, q.y FROM int1.ta AS p JOIN int2.tc AS q ON p.id = q.id', [], '', None,
+     {('int1', 'ta'): [(1, 5, 0), (2, 7, 0)], ('int2', 'tc'): [(1, 0, 1), (2, 0, 2), (5, 0, 3)]}),
+    (2, 'names', 'SELECT ta.x, ta.y, tc.id FROM int1.ta LEFT JOIN int2.tc ON ta.y = tc.x', [0], ' ORDER BY ta.x DESC', 1,
+     {('int1', 'ta'): [(1, 1, 0), (2, 2, 1)], ('int2', 'tc'): [(7, 1, 2)]}),
+    (3, 'default', 'SELECT u.id, v.y FROM ta AS u LEFT JOIN int3.te AS v ON u.y = v.x WHERE u.x > 0', [], '', None,
+     {('int1', 'ta'): [(1, 1, 2), (2, 0, 2)], ('int3', 'te'): [(1, 2, 0), (2, 1, 1)]}),
+    (5, 'names', 'SELECT td.x, tf.y FROM int2.td JOIN int3.tf ON td.id = tf.id WHERE tf.y = 1', [], '', None,
+     {('int2', 'td'): [(1, 0, 0), (2, 1, 0)], ('int3', 'tf'): [(1, 0, 1), (2, 0, 0)]}),
+    (6, 'names', 'SELECT p.x, q.y FROM int1.ta AS p LEFT JOIN int2.tc AS q ON p.id = q.id', [0], ' ORDER BY p.x', 2,
+     {('int1', 'ta'): [(1, 2, 0), (2, 1, 0), (3, 0, 0)], ('int2', 'tc'): [(2, 0, 5)]}),
+]
+
+
 def case_queries():
     for cat, body, op, osql, lim, contents in CASES:
         yield g.Q('case', cat, body, op, osql, lim, None, sorted(contents), feats=['case']), contents
     for cat, body, op, osql, lim, contents, ref in CASES5:
         yield g.Q('case', cat, body, op, osql, lim, None, sorted(contents), feats=['case'], ref_body=ref), contents
+    for naming, cat, body, op, osql, lim, contents in CASES6:
+        yield g.renamed(g.Q('case', cat, body, op, osql, lim, None, sorted(contents), feats=['case']), naming), contents
 
 
 def seed_queries():
@@ -1061,6 +1239,7 @@ def seed_queries():
 
 # ----------------------------------------------------------------------------- the probe
 def probe_query(chk, world, q, contents_iter, dist, max_fail_per_query=3):
+    world = world_for(q, world)
     try:
         steps = plan_for(q).steps
     except Exception as e:
@@ -1110,6 +1289,7 @@ def replay_kf(chk, world):
         wit = k['witness']
         q = g.Q.from_json(wit['query'])
         contents = {(i, t): [tuple(r) for r in rows] for i, t, rows in wit['contents']}
+        world = world_for(q, world)
         try:
             steps = plan_for(q).steps
             f = run_case(world, q, steps, contents)
@@ -1135,6 +1315,7 @@ def run(chk):
     corr_uselimit(chk)
     corr_agg(chk, world, 300 if quick else 3000)
     corr_setop(chk, world, 240 if quick else 2500)
+    corr_names(chk, 160 if quick else 1500)
     deep = (not quick) or bool(chk.broken())
     # 2. impl-level probe
     dist = {}
@@ -1190,8 +1371,8 @@ def replay(path):
     if not f:
         print(json.dumps(data, indent=1)[:3000])
         return 1
-    world = px.World(g.SCHEMA)
     q = g.Q.from_json(f['query'])
+    world = world_for(q, px.World(g.SCHEMA))
     contents = {(i, t): [tuple(r) for r in rows] for i, t, rows in f['contents']}
     steps = plan_for(q).steps
     r = run_case(world, q, steps, contents)
